@@ -103,9 +103,11 @@ pub fn run(out_dir: &str, seed: u64, runs: usize, steps: usize, every: usize) ->
                         writeln!(trace, "{}", json!({"ev": "rtfail", "run": run, "step": step, "err": e, "pidx": run})).ok();
                         None
                     }
-                    Err(_) => {
+                    Err(p) => {
                         n_fail += 1;
-                        writeln!(trace, "{}", json!({"ev": "rtfail", "run": run, "step": step, "err": "panic", "pidx": run})).ok();
+                        let msg = p.downcast_ref::<String>().cloned().or_else(|| p.downcast_ref::<&str>().map(|s| s.to_string())).unwrap_or_default();
+                        let loc = crate::ops::last_panic_location();
+                        writeln!(trace, "{}", json!({"ev": "rtfail", "run": run, "step": step, "err": format!("panic: {msg} @ {loc}"), "pidx": run})).ok();
                         None
                     }
                 };
@@ -119,7 +121,22 @@ pub fn run(out_dir: &str, seed: u64, runs: usize, steps: usize, every: usize) ->
                         b.insert(c.to_string(), json!(it.id(x)));
                         af.insert(c.to_string(), json!(it.id(y)));
                         if x != y {
-                            diffs.insert(c.to_string(), json!(first_diff(x, y, String::new()).unwrap_or_default()));
+                            let mut ds = vec![];
+                            project::all_diffs(x, y, String::new(), &mut ds, 24);
+                            if ds.is_empty() {
+                                ds.push(first_diff(x, y, String::new()).unwrap_or_default());
+                            }
+                            if c == "cells" || c == "styles" {
+                                // what the cell showed before, to tell a re-read unparsable formula from a changed one
+                                for d in ds.iter_mut() {
+                                    let path = d.split('\t').next().unwrap_or("").to_string();
+                                    let mut parts = path.trim_start_matches('[').splitn(2, "].");
+                                    let si: usize = parts.next().unwrap_or("0").parse().unwrap_or(0);
+                                    let key = parts.next().unwrap_or("").split('.').next().unwrap_or("").to_string();
+                                    *d = format!("{d}\tfmt_before={}", before["styles"][si][&key]["fmt"].as_str().unwrap_or(""));
+                                }
+                            }
+                            diffs.insert(c.to_string(), json!(ds));
                         }
                     }
                     writeln!(trace, "{}", json!({"ev": "xlsx", "run": run, "step": step, "before": b, "after": af, "diff": diffs, "plen": program.len()})).ok();
@@ -131,4 +148,23 @@ pub fn run(out_dir: &str, seed: u64, runs: usize, steps: usize, every: usize) ->
     trace.flush().ok();
     progs.flush().ok();
     Ok(json!({"runs": runs, "ops": n_ops, "roundtrips": n_rt, "roundtrip_failures": n_fail, "op_kinds": kinds.len()}))
+}
+
+/// diagnostics: apply one program, round trip at the end, print every difference
+pub fn replay_one(path: &str) -> Result<Value, String> {
+    let p: Value = serde_json::from_str(&std::fs::read_to_string(path).map_err(|e| e.to_string())?).map_err(|e| e.to_string())?;
+    let mut um = UserModel::new_empty("book", "en", "UTC", "en")?;
+    for a in p["program"].as_array().cloned().unwrap_or_default() {
+        crate::ops::apply(&mut um, &a);
+    }
+    um.evaluate();
+    let before = components(&um);
+    let after = components(&roundtrip(&um)?);
+    let mut out = vec![];
+    for c in COMPONENTS {
+        let mut ds = vec![];
+        project::all_diffs(&before[c], &after[c], c.to_string(), &mut ds, 50);
+        out.extend(ds);
+    }
+    Ok(json!({"diffs": out}))
 }
